@@ -13,6 +13,8 @@ import (
 	"syscall"
 	"time"
 
+	ldbstorage "github.com/syndtr/goleveldb/leveldb/storage"
+
 	"verif/bt"
 	"verif/fw"
 	"verif/shim/vos"
@@ -76,13 +78,14 @@ func c08Child(args []string) {
 		os.Exit(3)
 	}
 	points := 0
+	var labels []string
 	point := func(label string) {
 		if points == kill {
 			_ = syscall.Kill(os.Getpid(), syscall.SIGKILL)
 			select {}
 		}
 		points++
-		_ = label
+		labels = append(labels, label)
 	}
 	vtime.SetVirtual(1_700_000_000_000_000_000, 1)
 	inRequest := false
@@ -90,9 +93,24 @@ func c08Child(args []string) {
 		if !inRequest {
 			return
 		}
+		if phase != "pre" {
+			// the state after a call is the state before the next one (or before the acknowledgement, which is a
+			// point of its own): one kill point per call is enough
+			return
+		}
 		switch op {
-		case "MkdirAll", "WriteFile", "Rename", "RemoveAll", "Remove", "unlink":
+		case "MkdirAll", "WriteFile", "Rename", "RemoveAll", "Remove", "unlink", "OpenFile+create":
 			point(phase + ":" + op)
+		}
+	}
+	// the same for the file-system calls goleveldb's own file storage makes (creating LOCK, LOG, MANIFEST-*,
+	// CURRENT.*, the rename to CURRENT, journal rotation, removal of obsolete files): see cmd/vinstr -extra-os
+	ldbstorage.VerifHook = func(phase, op, path string) {
+		if inRequest && phase == "pre" {
+			switch op {
+			case "MkdirAll", "Rename", "Remove", "OpenFile+create":
+				point("ldb:" + op)
+			}
 		}
 	}
 	if stepwise {
@@ -122,7 +140,7 @@ func c08Child(args []string) {
 	point("after-last-ack")
 	// clean stop
 	d.Close()
-	fmt.Printf("points=%d\n", points)
+	fmt.Printf("labels=%s\npoints=%d\n", strings.Join(labels, ","), points)
 	os.Exit(0)
 }
 
@@ -156,6 +174,9 @@ func stepwiseRemoveAll(p string) error {
 
 // runChild runs one segment in a child process; returns the acknowledged statuses, whether the
 // child was killed, and the number of points it passed (only meaningful for kill = -1).
+// c08Labels: the point labels of the most recent counting run (kill = -1) of runChild.
+var c08Labels []string
+
 func runChild(c *fw.Ctx, dir string, ops []bt.Op, kill int, stepwise bool) (acks []string, killed bool, points int, errText string) {
 	opsFile := filepath.Join(c.Scratch, "c08-ops.json")
 	ackFile := filepath.Join(c.Scratch, "c08-ack.txt")
@@ -184,6 +205,13 @@ func runChild(c *fw.Ctx, dir string, ops []bt.Op, kill int, stepwise bool) (acks
 			}
 		}
 		return acks, false, 0, fmt.Sprintf("child failed: %v\n%s", err, tail2(errb.String(), 1500))
+	}
+	if i := strings.Index(out.String(), "labels="); i >= 0 {
+		l := out.String()[i+7:]
+		if j := strings.Index(l, "\n"); j >= 0 {
+			l = l[:j]
+		}
+		c08Labels = strings.Split(l, ",")
 	}
 	if i := strings.Index(out.String(), "points="); i >= 0 {
 		points, _ = strconv.Atoi(strings.TrimSpace(out.String()[i+7:]))
@@ -402,18 +430,25 @@ func runC08(c *fw.Ctx) {
 		seq []int
 	}
 	// two roots ("start from non-initial states too"): the empty directory, and a table that already holds rows in
-	// two families (so that what a delete / clear / re-create leaves behind or resurrects is visible one request earlier)
+	// two families (so that what a delete / clear / re-create leaves behind or resurrects is visible one request
+	// earlier). Quick tier: from the populated root one request, plus the two-request sequences that re-use a name
+	// or a family; thorough: the full BFS from both roots.
 	base := []int{0, 2, 3}
 	frontier := []prog{{}, {seq: base}}
 	seen := map[string]bool{}
 	var all []prog
+	fromBase := func(seq []int) bool { return len(seq) >= len(base) && fmt.Sprint(seq[:len(base)]) == fmt.Sprint(base) }
+	reuse := map[[2]int]bool{{14, 0}: true, {13, 2}: true, {8, 7}: true, {8, 17}: true, {14, 1}: true, {12, 3}: true}
 	for d := 1; d <= depth; d++ {
 		var next []prog
 		for _, p := range frontier {
-			if len(p.seq) >= len(base)+depth-1 && len(p.seq) > depth-1 && fmt.Sprint(p.seq[:len(base)]) == fmt.Sprint(base) && len(p.seq)-len(base) >= depth-1 {
-				continue // the populated root is explored one level less deep
+			if fromBase(p.seq) && !c.Thorough() && len(p.seq)-len(base) >= 2 {
+				continue
 			}
 			for k := range alpha {
+				if fromBase(p.seq) && !c.Thorough() && len(p.seq)-len(base) == 1 && !reuse[[2]int{p.seq[len(p.seq)-1], k}] {
+					continue
+				}
 				ns := append(append([]int(nil), p.seq...), k)
 				m := bt.NewModel()
 				// what a deleted table leaves on disk is state too (its data directory stays until the name is
@@ -488,6 +523,7 @@ func runC08(c *fw.Ctx) {
 		dir := filepath.Join(c.Scratch, fmt.Sprintf("c08-count-%d", c20Seq))
 		_ = os.MkdirAll(dir, 0o777)
 		_, _, total, errText := runChild(c, dir, ops, -1, stepwise)
+		labels := append([]string(nil), c08Labels...)
 		os.RemoveAll(dir)
 		if errText != "" {
 			c.InternalError("C08 child: " + errText)
@@ -539,7 +575,10 @@ func runC08(c *fw.Ctx) {
 			lastKind := ops[len(ops)-1].Kind
 			fsReq := lastKind == "CreateTable" || lastKind == "DeleteTable" || lastKind == "ModifyFamilies" || (lastKind == "DropRowRange" && ops[len(ops)-1].All)
 			inRequest := k > before && k < total-1 // strictly inside the last request (a kill at a request boundary leaves nothing half-done)
-			deep := fsReq && inRequest
+			// leveldb-internal points are killed once each; the crash-restart CHAINS hang off the points of the
+			// emulator's own file-system calls (and the first leveldb point, as a representative)
+			own := k >= 0 && k < len(labels) && (!strings.HasPrefix(labels[k], "ldb:") || k == 0 || !strings.HasPrefix(labels[k-1], "ldb:"))
+			deep := fsReq && inRequest && own
 			legacy := (len(p.seq) <= 2 || c.Thorough()) && item%4 == 0
 			if k >= 0 && (deep || legacy) {
 				seconds := [][]bt.Op{{alpha[2]}, {alpha[0]}, {alpha[8]}, {alpha[13]}}
